@@ -11,7 +11,7 @@ import (
 
 func init() {
 	register("C20", propMeta{
-		Explanation: "E-LOCK. A flow-sensitive must-lockset is computed over the SSA of every repository function (entry lockset = intersection over call sites, container/heap and sync.Once callbacks modelled as calls, goroutine bodies/callbacks/interface-exposed methods start empty). O-1: every read and write of every field in the explicit guarded-by table (built by reading the anchors; ~60 rows: matching state, metrics, client map, session maps, traffic counters) happens under its protection - the named mutex (write mode for writes), sync/atomic only, or immutable after publication (writes only to a not-yet-published fresh object or in a listed start-up function); for 'deep' rows the map/slice/list behind the field as well. O-2: every Lock/RLock is released on all paths, no Unlock of a lock not held, no self-deadlock, and the acquired-while-holding graph is acyclic. O-3: a field accessed through sync/atomic is never accessed plainly, including by copying the struct through a value receiver. O-4: a byte slice sent through a turbotunnel packet queue (and so handed to another goroutine) is a private copy made by the sender, never the caller's buffer, which the caller goes on writing. An access outside its protection is a pair of conflicting accesses with no ordering synchronisation for some schedule, i.e. a data race; each rule is therefore a necessary condition of race freedom for the listed state. Added after the second seeding round: O-5 no store through a package-level variable of another module or the standard library outside package initialisation and main's direct start-up assignments (D20, D21: http.DefaultTransport configured in place); O-6 a goroutine body (go target plus its single-call-site helpers) stores to, or slices an array field of, a non-fresh object only if the field has a row in the table or some repository lock is held there (D22). Added after the third seeding round: O-1b no method of a struct that carries its own mutex has a value receiver; deep accesses (map, slice, pointee) through a local copy of a struct are judged like accesses through the original. Added after the fourth seeding round: O-7 a local variable captured by reference is not assigned by one goroutine body and used by another without a common mutex; a start-up write must precede every go statement of that function that receives the object; rows for Peers; a function value handed to a helper that only calls it synchronously inherits the helper's lockset; freshness is followed through a captured local pointer variable. Added after the fifth seeding round: O-8 no send races with a close (thorough tier: every package); O-9 NewSnowflakeClient and its literals store into no element of a slice that comes from the config parameter (the backing array is shared with every other copy of the configuration).",
+		Explanation: "E-LOCK. A flow-sensitive must-lockset is computed over the SSA of every repository function (entry lockset = intersection over call sites, container/heap and sync.Once callbacks modelled as calls, goroutine bodies/callbacks/interface-exposed methods start empty). O-1: every read and write of every field in the explicit guarded-by table (built by reading the anchors; ~60 rows: matching state, metrics, client map, session maps, traffic counters) happens under its protection - the named mutex (write mode for writes), sync/atomic only, or immutable after publication (writes only to a not-yet-published fresh object or in a listed start-up function); for 'deep' rows the map/slice/list behind the field as well. O-2: every Lock/RLock is released on all paths, no Unlock of a lock not held, no self-deadlock, and the acquired-while-holding graph is acyclic. O-3: a field accessed through sync/atomic is never accessed plainly, including by copying the struct through a value receiver. O-4: a byte slice sent through a turbotunnel packet queue (and so handed to another goroutine) is a private copy made by the sender, never the caller's buffer, which the caller goes on writing. An access outside its protection is a pair of conflicting accesses with no ordering synchronisation for some schedule, i.e. a data race; each rule is therefore a necessary condition of race freedom for the listed state. Added after the second seeding round: O-5 no store through a package-level variable of another module or the standard library outside package initialisation and main's direct start-up assignments (D20, D21: http.DefaultTransport configured in place); O-6 a goroutine body (go target plus its single-call-site helpers) stores to, or slices an array field of, a non-fresh object only if the field has a row in the table or some repository lock is held there (D22). Added after the third seeding round: O-1b no method of a struct that carries its own mutex has a value receiver; deep accesses (map, slice, pointee) through a local copy of a struct are judged like accesses through the original. Added after the fourth seeding round: O-7 a local variable captured by reference is not assigned by one goroutine body and used by another without a common mutex; a start-up write must precede every go statement of that function that receives the object; rows for Peers; a function value handed to a helper that only calls it synchronously inherits the helper's lockset; freshness is followed through a captured local pointer variable. Added after the fifth seeding round: O-8 no send races with a close (thorough tier: every package); O-9 NewSnowflakeClient and its literals store into no element of a slice that comes from the config parameter (the backing array is shared with every other copy of the configuration). Added after the sixth seeding round and the mutation audit: O-2 a function that returns holding a lock must have a caller that continues after the call, and a lock acquired directly or through such a helper may not be acquired again by the next iteration; O-6 functions taking an http.ResponseWriter, and what they call in their package, count as goroutine bodies; O-10 no field is stored after a go statement that received the object if code reachable from the goroutine reads that field.",
 		NotDecided:  "races on state outside the table (third-party objects, local variables captured by several closures), happens-before through channels other than the immutable-after-publication class, instance confusion (locks are named by type and field, not by object).",
 		Assumptions: []string{"lock identity is (type, field): two instances of one struct are not distinguished", "start-up writes listed in the table happen before any concurrent reader exists (single-goroutine initialisation in main)", "dynamic calls neither acquire nor release repository locks"},
 	}, runC20)
@@ -44,6 +44,7 @@ func runC20(c *Ctx) {
 	c.checkForeignGlobalWrites("O-5 process-wide library objects are not modified", scope)
 	c.checkGoroutineFieldWrites("O-6 goroutine bodies modify only state with a protection row", scope)
 	c.checkNoSendRacesClose("O-8 no send races with a close", scope)
+	c.checkWriteAfterSpawn("O-10 no field is published after the goroutine that reads it was started", scope)
 	c.checkConfigSlicesNotModified("O-9 a configuration slice is not reordered in place")
 	c.checkCapturedCellRaces("O-7 a local variable is not written by one goroutine and used by another", scope)
 	if c.Thorough {
@@ -292,6 +293,46 @@ func (c *Ctx) checkGoroutineFieldWrites(rule string, scope []*ssa.Function) {
 				}
 			}
 		}
+	}
+	// HTTP handlers run one goroutine per request: a function that takes an http.ResponseWriter, and what it
+	// calls in its own package, is a goroutine body too (net/http's go statement is outside the repository)
+	for _, fn := range scope {
+		if fn.Blocks == nil || fn.Parent() != nil {
+			continue
+		}
+		isHandler := false
+		for _, par := range fn.Params {
+			if typeString(par.Type()) == "net/http.ResponseWriter" {
+				isHandler = true
+			}
+		}
+		if !isHandler {
+			continue
+		}
+		var visit func(f *ssa.Function, d int)
+		visit = func(f *ssa.Function, d int) {
+			if f == nil || f.Blocks == nil || !p.IsRepoFn(f) || f.Pkg != fn.Pkg {
+				return
+			}
+			if _, seen := bodies[f]; seen {
+				return
+			}
+			var at ssa.Instruction
+			if len(fn.Blocks) > 0 && len(fn.Blocks[0].Instrs) > 0 {
+				at = fn.Blocks[0].Instrs[0]
+			}
+			bodies[f] = at
+			if d == 0 {
+				return
+			}
+			for _, ci := range callsIn(f) {
+				if _, isGo := ci.(*ssa.Go); isGo {
+					continue
+				}
+				visit(staticCallee(ci), d-1)
+			}
+		}
+		visit(fn, 4)
 	}
 	bad := 0
 	nAcc := 0
